@@ -542,6 +542,10 @@ func generateReceiveMethod(file *jen.File, itf *idl.InterfaceType) error {
 		jen.Id("msg").Op("*").Qual("github.com/lugu/qiloop/bus/net", "Message"),
 		jen.Id("from").Qual("github.com/lugu/qiloop/bus", "Channel"),
 	).Params(jen.Error()).Block(
+		jen.Id(`// only call and post messages invoke a method.
+	if msg.Header.Type != net.Call && msg.Header.Type != net.Post {
+		return nil
+	}`),
 		prelude,
 		jen.Switch(jen.Id("msg.Header.Action")).Block(
 			writing...,
